@@ -9,6 +9,11 @@ RULE = ("One event loop, max_size >= N. (0) N in {6..32} tasks each in a hooked 
 
 def run(tier, seed, t0):
     cases = cl.run_cases(PID, "c15", seed, tier, 96 if tier == "thorough" else 18, case_timeout=60, jobs=6)
+    from checks import common_hook as ch
+    try:
+        cases += ch.cases(PID, seed, tier, 6 if tier != "thorough" else 30)
+    except vlib.BuildError as e:
+        c = vlib.Case(7_000_000); c.engine = "LD_PRELOAD interposition"; c.verdict = "inconclusive"; c.sig = "harness/hook-dylib-build-failed"; c.detail = str(e); cases.append(c)
     return vlib.finish(PID, tier, seed, "exploration", cases, rule=RULE, t0=t0, replay_builder=cl.rb_factory("c15", seed),
                        assumptions=["at most 6 configurations run at once so that the machine's own scheduling does not serialise the sleepers", "dylib interposition itself (hook crate) is not exercised, the core entry points it forwards to are"])
 
